@@ -57,7 +57,7 @@ def run(chk):
 
     # ---------------- (b) real GQR runs replayed by the model from their own norms, (c) the counts
     for _ in range(500 if thorough else 110):
-        B, n, m, N, L, s = R.gen_region_case(rng, *((12, 7) if thorough else (9, 5)))
+        B, n, m, N, L, s = R.gen_region_case(rng, *((12, 7) if thorough else (9, 5)), graded=0.25)
         if rng.random() < 0.3:
             # numerically rank-deficient basis (rank < N possible): residuals become rounding-level; the counts are then outside
             # the property's feasibility clause, but SSPOR must still hand back GQR's own first N sensors
@@ -73,12 +73,11 @@ def run(chk):
                 chk.count("gqr-rejected:" + type(e).__name__)
                 continue
             inreg = [c for c in piv[:N] if c in L]
-            zero_residual = any(min(st["dlens"]) == 0 for st in steps[:N])
+            zero_residual, tiny, _ = R.degenerate_steps(B, piv, N)     # exact arithmetic, independent of the loop's own norms
             nontriv = piv[:N] != A[:N]
             chk.case(case, nontrivial=nontriv)
             chk.count("gqr:" + opt)
             ctx = {**case, "observed": piv}
-            tiny = any(min(st["dlens"]) < 1e-9 * max(1e-300, max(steps[0]["dlens"])) for st in steps[:N])
             if zero_residual or tiny:
                 chk.count("ZERO-RESIDUAL-SKIP")
             else:
@@ -102,8 +101,13 @@ def run(chk):
                 chk.violation("impl", "sspor-gqr-raises", f"SSPOR(optimizer=GQR()).fit(**kws) raised {type(e).__name__}: {e}", ctx)
             table = R.table_from_steps(steps, n)
             tq = "[" + "; ".join(C.czlist(r) for r in table) + "]"
-            exprs.append(f"gqr_pivots {R.OPT[opt]} {R.coq_settings(L, A, N, s)} {n} {k} {tq}")
-            meta.append((case, piv))
+            kk = len(table)                     # = k unless the run produced non-finite norms in its late steps
+            exprs.append(f"firstn {kk} (gqr_pivots {R.OPT[opt]} {R.coq_settings(L, A, N, s)} {n} {kk} {tq})")
+            meta.append((case, piv[:kk]))
+            if kk < k:
+                chk.count("NONFINITE-LATE-STEPS-TRUNCATED")
+                if kk < N:
+                    chk.violation("impl", "nonfinite-norms-within-first-n", f"{opt}: the residual norms became non-finite at step {kk} < n_sensors = {N}", ctx)
     files = []
     for i in range(0, len(exprs), 120):
         body = ("From Coq Require Import List Arith ZArith. Import ListNotations.\nFrom PS Require Import Sel.NormCalc Exec.Run_C05.\n"
